@@ -42,6 +42,11 @@ theorem c02_constants_ok_v2 : ConstsOk constsV2 where
   namesNe := by
     intro m hm
     cases m <;> first | exact absurd rfl hm | decide +kernel
+  sortKeys := rfl
+  okStatus := by decide
+  elemMeta := by decide +kernel
+  metaPaging := by decide +kernel
+  elemPaging := by decide +kernel
 
 /-- the envelope member names and reserved parameter names are the protocol's -/
 theorem c02_constants_v2 :
@@ -207,6 +212,68 @@ theorem c02_tunnelling_irrelevant (K : Consts) (hK : ConstsOk K) (env : Env) (ro
     htexts q hqv hkind hpfx fq body hb hfresh hbody
   exact ⟨s1, s2, h1, h2, by rw [e1, e2]⟩
 
+/-! ## the response direction: the client returns what the resource returned -/
+
+/-- **Entity.** What a `get` implementation returns is what the client call returns: the response
+body is the entity's JSON (`JsonText`: C03's text ↔ tree law), read back by the generated unmarshaler
+(C01's JSON tree round trip `json_roundtrip_tree`, applied) — `norm`: defaults filled, map entries in
+key order, NaN canonical. For every schema, entity type, value and depth. -/
+theorem c02_returns_entity (K : Consts) (hK : ConstsOk K) (env : Env) (F : FloatLaws) (C : ConvLaws) (S : SchemaOK env)
+    (keq : Value → Value → Bool) (r : ResSpec) (c : Call) (n : TName) (hs : r.schema = some n)
+    (hkind : r.method.kind = .get) (v : Value) (hv : ValOK v) (d : Doc)
+    (henc : encode (wcfg K env) encFuel [] (.ref n) v = .ok d) (ht : JsonText d) :
+    callReturns K env keq r c (.entity v) = .entity (norm env encFuel (.ref n) v) := by
+  obtain ⟨resp, h1, h2⟩ := returns_entity_get K hK env F C S keq r c n hs hkind v hv d henc ht
+  simp [callReturns, h1, h2]
+
+/-- **Action result.** The value an action returns is what the client call returns (the `value`
+envelope opened; any result type: primitives, arrays, records). -/
+theorem c02_returns_action_result (K : Consts) (hK : ConstsOk K) (env : Env) (F : FloatLaws) (C : ConvLaws)
+    (S : SchemaOK env) (keq : Value → Value → Bool) (r : ResSpec) (c : Call) (ty : Ty) (hret : r.method.ret = some ty)
+    (hkind : r.method.kind = .action) (v : Value) (hv : ValOK v) (d : Doc)
+    (henc : encode (wcfg K env) encFuel [K.fValue] ty v = .ok d)
+    (ht : JsonText ((wcfg K env).finish [(K.fValue, d)])) :
+    callReturns K env keq r c (.action v) = .action (norm env encFuel ty v) := by
+  obtain ⟨resp, h1, h2⟩ := returns_action K hK env F C S keq r c ty hret hkind v hv d henc ht
+  simp [callReturns, h1, h2]
+
+/-- **Elements with paging.** What `get_all` or a finder returns — every element, in order, and the
+paging record (or none) — is what the client call returns. Any number of elements. -/
+theorem c02_returns_elements_paging (K : Consts) (hK : ConstsOk K) (env : Env) (F : FloatLaws) (C : ConvLaws)
+    (S : SchemaOK env) (keq : Value → Value → Bool) (r : ResSpec) (c : Call) (ty : Ty)
+    (hkind : r.method.kind = .get_all ∨ r.method.kind = .finder) (hty : elemTy r = some ty)
+    (vs : List Value) (hvs : ∀ v ∈ vs, ValOK v) (ds : List Doc) (hds : encElems K env ty vs = some ds)
+    (paging : Option Value) (hpv : ∀ p, paging = some p → ValOK p) (pg : List (Bytes × Doc))
+    (hpg : encPaging K env paging = some pg) (hmeta : r.method.metadata = none)
+    (ht : JsonText ((wcfg K env).finish ((K.fElements, .arr ds) :: pg))) :
+    callReturns K env keq r c (.elements vs paging none) =
+      .elements (vs.map (norm env encFuel ty)) (paging.map (norm env encFuel (.ref tCollMeta))) none := by
+  obtain ⟨resp, h1, h2⟩ := returns_elements K hK env F C S keq r c ty hkind hty vs hvs ds hds paging hpv pg hpg hmeta ht
+  simp [callReturns, h1, h2]
+
+/-- the full-strength statement on the created id: whatever id the implementation returns, the client
+returns the id its header text decodes to, and the implementation's status. FALSE today
+(`c02_created_id_header_cex`). -/
+def CreatedIdFull (K : Consts) : Prop :=
+  ∀ (env : Env) (keq : Value → Value → Bool) (r : ResSpec) (c : Call) (kt : Ty) (cr : Created) (idt : Bytes) (id' : Value),
+    lastKeyTy r.segs = some kt → r.method.kind = .create → r.method.returnEntity = false →
+    ror2Text K env K.headerEsc kt cr.id = some idt → ofRes (unmarshalRor2 (pathRCfg env) kt idt) = .ok id' →
+    createdStatus cr / 100 = 2 →
+    callReturns K env keq r c (.created cr) = .created id' (createdStatus cr) none
+
+/-- **Created id and status** (guarded by `HeaderSafe`): when the header text of the id is a
+transparent HTTP header value, the client returns the id that text decodes to — the implementation's
+id, by C01's header-flavour round trip — and the status the implementation chose (201 when it left it
+at zero). -/
+theorem c02_created_id_partial (K : Consts) (env : Env) (keq : Value → Value → Bool) (r : ResSpec) (c : Call)
+    (kt : Ty) (hkt : lastKeyTy r.segs = some kt) (hkind : r.method.kind = .create) (hre : r.method.returnEntity = false)
+    (cr : Created) (idt : Bytes) (hid : ror2Text K env K.headerEsc kt cr.id = some idt)
+    (guard : HeaderSafe idt) (id' : Value) (hdec : ofRes (unmarshalRor2 (pathRCfg env) kt idt) = .ok id')
+    (hst : createdStatus cr / 100 = 2) :
+    callReturns K env keq r c (.created cr) = .created id' (createdStatus cr) none := by
+  obtain ⟨resp, h1, h2⟩ := returns_created K env keq r c kt hkt hkind hre cr idt hid guard id' hdec hst
+  simp [callReturns, h1, h2]
+
 end Restli.E2E
 
 /-! ## a concrete world: witnesses and non-vacuity -/
@@ -233,6 +300,18 @@ def detailSegs : List SegSpec := [⟨sB "coll", some (.prim .str)⟩, ⟨sB "det
 def collGet : ResSpec := ⟨collSegs, some "Inner", ⟨.get, [], true, none, none, none, false⟩⟩
 def detailGet : ResSpec := ⟨detailSegs, some "Inner", ⟨.get, [], false, none, none, none, false⟩⟩
 def detailDelete : ResSpec := ⟨detailSegs, some "Inner", ⟨.delete, [], false, none, none, none, false⟩⟩
+
+def collCreate : ResSpec := ⟨collSegs, some "Inner", ⟨.create, [], false, none, none, none, false⟩⟩
+def someEntity : Value := .record [(sB "id", .i32 7)]
+def createdIdOf : Returned → Option Bytes
+  | .created (.str b) _ _ => some b
+  | _ => none
+def isNoIdHeader : Returned → Bool
+  | .noIdHeader => true
+  | _ => false
+def isTransportError : Returned → Bool
+  | .transportError => true
+  | _ => false
 
 def boundary : Bytes := sB "0123456789abcdef0123456789abcdef0123456789abcdef0123456789ab"
 def plainCfg : Cfg := ⟨0, [], boundary⟩
@@ -273,6 +352,34 @@ theorem c02_dot_segment_key_other_method :
     isOther (callSeen constsV2 env roots plainCfg detailGet ⟨[.str [46]], none, .none⟩) = some (.get, ["detail"]) ∧
     isOther (callSeen constsV2 env roots plainCfg detailDelete ⟨[.str [46]], none, .none⟩) = some (.delete, ["detail"]) := by
   decide +kernel
+
+/-- **Finding C02-F14-id-header-not-transparent** (DESIGN F14; the guard is `HeaderSafe`): the id
+`" "` is trimmed away by net/http — the client reports that the response has no id header although
+the entity was created; the id `"\x00"` makes net/http reject the whole response. -/
+theorem c02_created_id_header_cex : ¬ CreatedIdFull constsV2 := by
+  intro h
+  have := h env (fun _ _ => false) collCreate ⟨[], none, .entity someEntity⟩ (.prim .str) ⟨.str [32], 201, none, none⟩
+    [32] (.str [32]) (by decide +kernel) (by decide +kernel) (by decide +kernel) (by decide +kernel) (by rfl) (by decide)
+  have hno : isNoIdHeader (callReturns constsV2 env (fun _ _ => false) collCreate ⟨[], none, .entity someEntity⟩
+      (.created ⟨.str [32], 201, none, none⟩)) = true := by decide +kernel
+  rw [this] at hno
+  cases hno
+
+/-- … and what the client returns in the two cases -/
+theorem c02_created_id_header_outcomes :
+    isNoIdHeader (callReturns constsV2 env (fun _ _ => false) collCreate ⟨[], none, .entity someEntity⟩
+      (.created ⟨.str [32], 201, none, none⟩)) = true ∧
+    isTransportError (callReturns constsV2 env (fun _ _ => false) collCreate ⟨[], none, .entity someEntity⟩
+      (.created ⟨.str [0], 201, none, none⟩)) = true ∧
+    createdIdOf (callReturns constsV2 env (fun _ _ => false) collCreate ⟨[], none, .entity someEntity⟩
+      (.created ⟨.str (sB " a "), 201, none, none⟩)) = some (sB "a") := by
+  decide +kernel
+
+/-- the guard is satisfiable, and with it the id comes back: reserved characters, percent signs,
+non-ASCII, inner spaces -/
+example : HeaderSafe (Escape.replaceWith Gen.headerEscapes (sB "a (b):'c',%41 é/+")) := by decide +kernel
+example : createdIdOf (callReturns constsV2 env (fun _ _ => false) collCreate ⟨[], none, .entity someEntity⟩
+    (.created ⟨.str (sB "a (b):'c',%41 é/+"), 0, none, none⟩)) = some (sB "a (b):'c',%41 é/+") := by decide +kernel
 
 /-! non-vacuity of the request-direction theorems: a key full of reserved characters, a context path,
 tunnelling on and off -/
